@@ -26,7 +26,7 @@ class NotConst(Exception):
 
 
 class Module:
-    def __init__(self, name: str, path: str, rel: str) -> None:
+    def __init__(self, name: str, path: str, rel: str, normalize: bool = False) -> None:
         self.name = name
         self.path = path
         self.rel = rel
@@ -41,6 +41,12 @@ class Module:
             for child in ast.iter_child_nodes(parent):
                 child._parent = parent  # type: ignore[attr-defined]
         self.tree._parent = None  # type: ignore[attr-defined]
+        if normalize:
+            # every rule reads functions in normal form (normalize.py); the emission model
+            # interprets the code and works on the raw twin (Repo.raw)
+            from .normalize import normalize_tree
+
+            normalize_tree(self.tree)
         # top-level symbol table
         self.defs: dict[str, ast.AST] = {}
         self.assigns: dict[str, ast.expr] = {}
@@ -151,23 +157,36 @@ class ClassInfo:
 
 
 class Repo:
-    def __init__(self, root: str | None = None) -> None:
+    def __init__(self, root: str | None = None, normalize: bool | None = None) -> None:
         self.root = root or REPO
         self.pkgdir = os.path.join(self.root, PKG_REL)
         if not os.path.isdir(self.pkgdir):
             raise AnalysisError(f"package directory missing: {self.pkgdir}")
+        if normalize is None:
+            normalize = bool(os.environ.get("VERIF_NORMALIZE"))
+        self.normalized = normalize
+        self._raw: Repo | None = None
         self.modules: dict[str, Module] = {}
         for fn in sorted(os.listdir(self.pkgdir)):
             if fn.endswith(".py"):
                 name = fn[:-3]
                 self.modules[name] = Module(
-                    name, os.path.join(self.pkgdir, fn), f"{PKG_REL}/{fn}"
+                    name, os.path.join(self.pkgdir, fn), f"{PKG_REL}/{fn}", normalize
                 )
         self._classes: dict[str, ClassInfo] = {}
         for m in self.modules.values():
             for n, d in m.defs.items():
                 if isinstance(d, ast.ClassDef):
                     self._classes[f"{m.name}:{n}"] = ClassInfo(m, d)
+
+    @property
+    def raw(self) -> "Repo":
+        """The same tree without normalisation (what the emission model interprets)."""
+        if not self.normalized:
+            return self
+        if self._raw is None:
+            self._raw = Repo(self.root, normalize=False)
+        return self._raw
 
     # ------------------------------------------------------------------ lookup
     def module(self, name: str) -> Module:
